@@ -141,6 +141,16 @@ class _Sentinel:
         return hash(self.tag)
 
 
+STRING_ALTERNATIVES = {
+    ("strategy", "refit"): "update", ("strategy", "last"): "mean", ("strategy", "recursive"): "direct",
+    ("aggfunc", "mean"): "median", ("model", "additive"): "multiplicative", ("method", "mle"): "pearsonr",
+    ("method", "drift"): "mean", ("method", "ywadjusted"): "ols", ("missing", "none"): "drop",
+    ("n_intervals", "sqrt"): "log", ("remainder", "drop"): "passthrough", ("error", "add"): "mul",
+    ("initialization_method", "estimated"): "heuristic", ("information_criterion", "aic"): "bic",
+    ("pre_dispatch", "2*n_jobs"): "n_jobs",
+}
+
+
 def perturb(pname, default, choice):
     """Type-preserving perturbation of a default value (choice: small int from the generator)."""
     if isinstance(default, bool):
@@ -150,7 +160,10 @@ def perturb(pname, default, choice):
     if isinstance(default, float):
         return float(default) * 0.5 + 0.25 + choice
     if isinstance(default, str):
-        return default  # strings are enumerations: an arbitrary string is not a valid setting
+        alt = STRING_ALTERNATIVES.get((pname, default))
+        if alt is not None:
+            return alt
+        return default + "_alt" if choice % 2 else default
     if default is None:
         return _Sentinel(pname)
     if isinstance(default, (list, tuple)):
